@@ -27,8 +27,9 @@ def HeadRel (env env' : Env) : Head → Head → Prop
 
 /-- the world's functions and methods return well-formed values -/
 structure WorldOK (w : World) : Prop where
-  func : ∀ n vs kwn kvs v, w.func n vs kwn kvs = .ok v → VLe v v
-  method : ∀ m r vs kwn kvs v, w.method m r vs kwn kvs = .ok v → VLe v v
+  func : ∀ n vs kwn kvs v, Val.cleanL vs = true → Val.cleanL kvs = true → w.func n vs kwn kvs = .ok v → VLe v v
+  method : ∀ m r vs kwn kvs v, r.clean = true → Val.cleanL vs = true → Val.cleanL kvs = true →
+    w.method m r vs kwn kvs = .ok v → VLe v v
 
 theorem RLeS.bindR {r r' : Except EErr (List Val)} {k k' : List Val → Res} (h : RLeS r r') (h' : RLeS r' r')
     (hk : ∀ vs vs', VLeS vs vs' → VLeS vs' vs' → RLe (k vs) (k' vs')) : RLe (r >>= k) (r' >>= k') := by
@@ -134,7 +135,7 @@ theorem fnCallLz_rel (w : World) (hw : WorldOK w) (n : String) {args args' : Lis
       simp only [Bool.and_eq_true] at hc'
       rw [VLeS.eq_of_clean hc'.1 hv, VLeS.eq_of_clean hc'.2 hkv]
       simp only [hc, if_true]
-      exact RLe.refl_of_ok (fun v h => hw.func _ _ _ _ v h)
+      exact RLe.refl_of_ok (fun v h => hw.func _ _ _ _ v hc'.1 hc'.2 h)
     · simp only [hc]; exact RLe.error _ _
 
 theorem callSemLz_rel (w : World) (hw : WorldOK w) {h h' : Head} {args args' : List Den} {lams lams' : List LamD}
@@ -177,7 +178,7 @@ theorem callSemLz_rel (w : World) (hw : WorldOK w) {h h' : Head} {args args' : L
             rw [VLeS.eq_of_clean hc'.1.2 hv, VLeS.eq_of_clean hc'.2 hkv]
             cases e1
             simp only [hc, if_true]
-            exact RLe.refl_of_ok (fun v h => hw.method _ _ _ _ _ v h)
+            exact RLe.refl_of_ok (fun v h => hw.method _ _ _ _ _ v hc'.1.1 hc'.1.2 hc'.2 h)
           · simp only [hc]; exact RLe.error _ _
         | _ => exact RLe.error _ _
     | _ => simp only [HeadRel] at hh
